@@ -15,7 +15,7 @@ from sa import sigdata, families, codec, tables
 from sa.interp import alpha, sl, Interp, Scenario, Sym, Const, Bytes, Enum, render, render_items, merge_consts, render_item
 from sa.loader import AnalysisError, dotted
 from sa.sigdata import enum_const
-from sa.templates import resolve_lookup, display_keys, area_template, match, render_template, Pred, C, BYTE, SYM
+from sa.templates import b2i_forms, resolve_lookup, display_keys, area_template, match, render_template, Pred, C, BYTE, SYM
 
 noinline = lambda f: False  # noqa: E731
 
@@ -464,7 +464,7 @@ def check_sig_codecs(rep, prog):
     f = rsa.methods['from_signer']
     for s in Interp(prog, Scenario(args=at(f, p1=SIG), inline=noinline)).run(f):
         st = [v for p, v, l, _ in s.stores if p == 'self.md_mod_n']
-        rep.check(st == ['MPI(self.bytes_to_int(sig))'], 'C02.4', 'RSASignature.from_signer', '%s' % st,
+        rep.check(len(st) == 1 and st[0] in ['MPI(%s)' % b for b in b2i_forms('self', 'sig')], 'C02.4', 'RSASignature.from_signer', '%s' % st,
                   'the signer output is stored as one big-endian integer', where=rsa.where)
     # EdDSA: two halves of (key_size + 7) // 8 octets both ways (RFC 8032: R and S are 32 octets each for Ed25519)
     ed = fields.classes['EdDSASignature']
@@ -484,8 +484,9 @@ def check_sig_codecs(rep, prog):
         npaths += 1
         r_ = [v for p, v, l, _ in s.stores if p == 'self.r']
         s_ = [v for p, v, l, _ in s.stores if p == 'self.s']
-        ok = any(r_ == ['MPI(self.bytes_to_int(%s))' % sl('sig', ('', H))] and s_ == ['MPI(self.bytes_to_int(%s))' % sl('sig', (L, ''))]
-                 for H in halves for L in lows(H))
+        ok = len(r_) == 1 and len(s_) == 1 and any(
+            r_[0] in ['MPI(%s)' % b for b in b2i_forms('self', sl('sig', ('', H)))] and
+            s_[0] in ['MPI(%s)' % b for L in lows(H) for b in b2i_forms('self', sl('sig', (L, '')))] for H in halves)
         rep.check(ok, 'C02.4', 'EdDSASignature.from_signer', 'r=%s s=%s' % (r_, s_), 'the signer output is split into two equal halves r || s',
                   where=ed.where, expected='r = sig[:len(sig) // 2], s = sig[len(sig) // 2:]', found='r=%s s=%s' % (r_, s_))
     if not npaths:
